@@ -386,6 +386,55 @@ static void body_snapshot(Tape &t, Ctx &c) {
 	if (c.want_sample) c.sample = fmt("{\"workload_seed\":%llu,\"library_rw_bytes\":%zu}", (unsigned long long) seed, before.size());
 }
 
+// isal_update_histogram: the counts are accumulated, hash_table is documented as "tmp space": what it holds before a call
+// (left over from an earlier buffer, or garbage) must not influence the counts
+extern "C" void isal_update_histogram_base(uint8_t *, int, struct isal_huff_histogram *);
+static void body_histogram(Tape &t, Ctx &c) {
+	std::vector<dg::Seg> sa, sb;
+	dg::gen(t, sa, 90000, nullptr, (int) t.pick<uint32_t>({3, 4, 5, 6, 2}));
+	dg::gen(t, sb, 60000);
+	std::vector<uint8_t> A, B;
+	dg::expand(sa, A);
+	dg::expand(sb, B);
+	bool base = t.coin();
+	const char *lv = "host"; // the library's data (dispatch slots included) is read-only in this harness; the other collector variants are covered the same way in C18
+	int mode = (int) t.range(0, 1); // 0: same struct used for A then B; 1: hash_table pre-filled with generated garbage
+	uint64_t gseed = t.bits64();
+	c.fpmix(dg::fingerprint(sa)); c.fpmix(dg::fingerprint(sb) * 3); c.fpmix(base); c.fpmix(mode); c.fpmix(mix64((uint64_t) (uintptr_t) lv));
+	auto upd = [&](const std::vector<uint8_t> &d, struct isal_huff_histogram *h) {
+		guard::Buf ib = guard::alloc_copy(d.data(), d.size(), guard::START, "histogram input"); // a stale backward reference would leave the mapping
+		guard::set_readonly(ib);
+		guard::Fault f = guard::call([&] { if (base) isal_update_histogram_base(ib.p, (int) d.size(), h); else isal_update_histogram(ib.p, (int) d.size(), h); });
+		PBT_CHECK(!f.faulted, "determinism:histogram", "isal_update_histogram%s on %zu bytes (cpu %s) with a used scratch table: %s", base ? "_base" : "", d.size(), lv, f.describe().c_str());
+		guard::retire(ib);
+	};
+	guard::Buf hf = guard::alloc(sizeof(struct isal_huff_histogram), guard::END, "hist fresh", 8, 0), hu = guard::alloc(sizeof(struct isal_huff_histogram), guard::END, "hist used", 8, 0);
+	struct isal_huff_histogram *fresh = (struct isal_huff_histogram *) hf.p, *used = (struct isal_huff_histogram *) hu.p;
+	memset(fresh, 0, sizeof *fresh);
+	memset(used, 0, sizeof *used);
+	upd(B, fresh);
+	std::vector<uint64_t> add(ISAL_DEF_LIT_LEN_SYMBOLS + ISAL_DEF_DIST_SYMBOLS, 0);
+	if (mode == 0) {
+		upd(A, used);
+		memcpy(add.data(), used->lit_len_histogram, sizeof used->lit_len_histogram);
+		memcpy(add.data() + ISAL_DEF_LIT_LEN_SYMBOLS, used->dist_histogram, sizeof used->dist_histogram);
+	} else {
+		for (size_t i = 0; i < IGZIP_LVL0_HASH_SIZE; i++) used->hash_table[i] = (uint16_t) (mix64(gseed + i) >> 7);
+	}
+	upd(B, used);
+	for (int i = 0; i < ISAL_DEF_LIT_LEN_SYMBOLS; i++)
+		PBT_CHECK(used->lit_len_histogram[i] == add[i] + fresh->lit_len_histogram[i], "determinism:histogram", "isal_update_histogram%s (cpu %s): literal/length count %d for a %zu-byte buffer is %llu on a fresh struct but %llu when the scratch table held %s",
+		          base ? "_base" : "", lv, i, B.size(), (unsigned long long) fresh->lit_len_histogram[i], (unsigned long long) (used->lit_len_histogram[i] - add[i]), mode ? "garbage" : fmt("the leftovers of a %zu-byte buffer", A.size()).c_str());
+	for (int i = 0; i < ISAL_DEF_DIST_SYMBOLS; i++)
+		PBT_CHECK(used->dist_histogram[i] == add[ISAL_DEF_LIT_LEN_SYMBOLS + i] + fresh->dist_histogram[i], "determinism:histogram", "isal_update_histogram%s (cpu %s): distance count %d differs between a fresh struct and one whose scratch table was used before", base ? "_base" : "", lv, i);
+	uint64_t nm = 0;
+	for (int i = 257; i < ISAL_DEF_LIT_LEN_SYMBOLS; i++) nm += fresh->lit_len_histogram[i];
+	c.nontrivial = nm > 0 && (mode == 1 || A.size() > 32768);
+	c.label(base ? "collector=base" : std::string("collector=dispatched@") + lv);
+	c.label(mode ? "scratch=garbage" : A.size() > 32768 ? "scratch=leftover(>32KiB buffer)" : "scratch=leftover");
+	if (c.want_sample) c.sample = fmt("{\"A\":%s,\"B\":%s,\"collector\":\"%s\",\"cpu\":\"%s\",\"scratch\":\"%s\",\"matches_in_B\":%llu}", dg::describe(sa).c_str(), dg::describe(sb).c_str(), base ? "base" : "dispatched", lv, mode ? "garbage" : "leftover", (unsigned long long) nm);
+}
+
 int main(int argc, char **argv) {
 	refcrc::self_test();
 	find_lib_rw();
@@ -406,6 +455,7 @@ int main(int argc, char **argv) {
 		{"snapshot", body_snapshot, 4, 1, nullptr, "byte snapshot of the library's writable data before/after a warm single-threaded run of every API: identical"},
 		{"coldstart_race", body_coldstart, 4, 2, nullptr, "forked process with all dispatch slots re-armed: N threads leave a barrier into their first calls; results correct and equal, every slot ends with the serial value, only dispatch slots change"},
 		{"determinism_prefill", body_determinism, 64, 6, nullptr, "same operation with context / level_buf / output / isal_dict / hufftables output pre-filled with two different garbage patterns -> identical bytes, counters and codes; non-trivial: >= 16 input bytes"},
+		{"histogram_scratch", body_histogram, 64, 3, nullptr, "isal_update_histogram{_base, dispatched}: counts for buffer B on a zeroed struct == counts added by B on a struct already used for a buffer A (often > 32 KiB) or whose hash_table scratch area holds generated garbage; inputs in exact-size mappings; non-trivial: B has matches and the scratch area was really used"},
 		{"reuse", body_reuse, 96, 6, nullptr, "compress or inflate A (possibly abandoned mid-stream), *_reset or *_init (user fields re-set), run B -> identical to B on a fresh context; non-trivial: A abandoned mid-stream"},
 	};
 	return pbt_main(argc, argv, "C15", subs);
